@@ -225,6 +225,35 @@ theorem mem_groupNeeds_src (t : Table) (e : Eqn) (n : Name) :
     n ∈ (groupNeeds t e).1 ↔ NeedsSrc t e n := by
   simp [groupNeeds, mem_groupSrcNames]
 
+/-! ## sorting -/
+
+theorem mem_insertSorted (x a : Name) (l : List Name) :
+    a ∈ insertSorted x l ↔ a = x ∨ a ∈ l := by
+  induction l with
+  | nil => simp [insertSorted]
+  | cons y ys ih =>
+    simp only [insertSorted]
+    split
+    · simp
+    · simp only [List.mem_cons, ih]
+      constructor
+      · rintro (h | h | h)
+        · exact Or.inr (Or.inl h)
+        · exact Or.inl h
+        · exact Or.inr (Or.inr h)
+      · rintro (h | h | h)
+        · exact Or.inr (Or.inl h)
+        · exact Or.inl h
+        · exact Or.inr (Or.inr h)
+
+theorem mem_sortNames (a : Name) (l : List Name) : a ∈ sortNames l ↔ a ∈ l := by
+  induction l with
+  | nil => simp [sortNames]
+  | cons y ys ih =>
+    simp only [sortNames, List.foldr_cons] at ih ⊢
+    rw [mem_insertSorted, ih]
+    simp
+
 /-! ## arrays -/
 
 theorem findArr_name {arrs : List PArr} {n : Name} {a : PArr} (h : findArr arrs n = some a) :
@@ -327,5 +356,200 @@ theorem firstSError_err {α : Type} (f : α → SVerdict) (l : List α) (v : SVe
     | missing a b c =>
       rw [hfx] at h
       exact ⟨x, List.mem_cons_self, by rw [hfx]; exact h⟩
+
+/-! ## inversion of `check_equation_array_properties` -/
+
+theorem checkEquationWith_ok {needs : Eqn → List Name × List Name} {arrs : List PArr} {e : Eqn}
+    (h : checkEquationWith needs arrs e = Verdict.ok) :
+    ∃ d, findArr arrs e.dest = some d ∧ (∀ n ∈ (needs e).2, strip n ∈ d.props) ∧
+      ∀ s ∈ e.sources.getD [], ∃ a, findArr arrs s = some a ∧
+        ∀ n ∈ (needs e).1, strip n ∈ a.props := by
+  unfold checkEquationWith at h
+  cases hd : findArr arrs e.dest with
+  | none => rw [hd] at h; cases h
+  | some d =>
+    rw [hd] at h
+    simp only at h
+    refine ⟨d, rfl, ?_⟩
+    cases hs : e.sources with
+    | none =>
+      rw [hs] at h
+      simp only at h
+      cases hc : checkArray d ((needs e).2.map strip) with
+      | none =>
+        refine ⟨?_, by simp⟩
+        intro n hn
+        exact checkArray_none hc _ (List.mem_map.mpr ⟨n, hn, rfl⟩)
+      | some err => rw [hc] at h; cases h
+    | some srcs =>
+      rw [hs] at h
+      simp only at h
+      cases hf : srcs.find? (fun s => (findArr arrs s).isNone) with
+      | some s => rw [hf] at h; cases h
+      | none =>
+        rw [hf] at h
+        simp only at h
+        split at h
+        · rename_i hemp
+          simp only [List.isEmpty_iff, List.append_eq_nil_iff, List.filterMap_eq_nil_iff] at hemp
+          obtain ⟨h1, h2⟩ := hemp
+          have hc : checkArray d ((needs e).2.map strip) = none := by
+            cases hcc : checkArray d ((needs e).2.map strip) with
+            | none => rfl
+            | some x => rw [hcc] at h1; simp at h1
+          refine ⟨?_, ?_⟩
+          · intro n hn
+            exact checkArray_none hc _ (List.mem_map.mpr ⟨n, hn, rfl⟩)
+          · intro s hsm
+            simp only [Option.getD_some] at hsm
+            have hnone := List.find?_eq_none.mp hf s hsm
+            cases ha : findArr arrs s with
+            | none => rw [ha] at hnone; simp at hnone
+            | some a =>
+              refine ⟨a, rfl, ?_⟩
+              have := h2 s hsm
+              simp only [checkSrc, ha] at this
+              intro n hn
+              exact checkArray_none this _ (List.mem_map.mpr ⟨n, hn, rfl⟩)
+        · cases h
+
+theorem checkEquationWith_invalidDest {needs : Eqn → List Name × List Name} {arrs : List PArr}
+    {e : Eqn} {n d : Name} (h : checkEquationWith needs arrs e = Verdict.invalidDest n d) :
+    n = e.name ∧ d = e.dest ∧ findArr arrs e.dest = none := by
+  unfold checkEquationWith at h
+  cases hd : findArr arrs e.dest with
+  | none =>
+    rw [hd] at h
+    simp only [Verdict.invalidDest.injEq] at h
+    exact ⟨h.1.symm, h.2.symm, rfl⟩
+  | some a =>
+    rw [hd] at h
+    simp only at h
+    split at h
+    · split at h <;> cases h
+    · split at h
+      · cases h
+      · split at h <;> cases h
+
+theorem checkEquationWith_invalidSource {needs : Eqn → List Name × List Name} {arrs : List PArr}
+    {e : Eqn} {n s : Name} (h : checkEquationWith needs arrs e = Verdict.invalidSource n s) :
+    n = e.name ∧ (∃ d, findArr arrs e.dest = some d) ∧
+    ∃ srcs, e.sources = some srcs ∧ s ∈ srcs ∧ findArr arrs s = none := by
+  unfold checkEquationWith at h
+  cases hd : findArr arrs e.dest with
+  | none => rw [hd] at h; cases h
+  | some a =>
+    rw [hd] at h
+    simp only at h
+    split at h
+    · split at h <;> cases h
+    · rename_i srcs hs
+      split at h
+      · rename_i s' hf
+        simp only [Verdict.invalidSource.injEq] at h
+        refine ⟨h.1.symm, ⟨a, rfl⟩, srcs, hs, ?_, ?_⟩
+        · rw [← h.2]; exact List.mem_of_find?_eq_some hf
+        · have := List.find?_some hf
+          rw [← h.2]
+          simpa using this
+      · split at h <;> cases h
+
+/-- the content of a "missing properties" error -/
+theorem checkEquationWith_missing {needs : Eqn → List Name × List Name} {arrs : List PArr}
+    {e : Eqn} {n : Name} {errs : List (Name × List Name)}
+    (h : checkEquationWith needs arrs e = Verdict.missing n errs) :
+    n = e.name ∧ errs ≠ [] ∧ ∃ d, findArr arrs e.dest = some d ∧
+    (∀ s ∈ e.sources.getD [], ∃ a, findArr arrs s = some a) ∧
+    -- every entry is about the destination or a source, and lists exactly the
+    -- needed names that array lacks
+    (∀ err ∈ errs,
+      (err.1 = e.dest ∧ ∀ x, x ∈ err.2 ↔ x ∈ (needs e).2.map strip ∧ x ∉ d.props) ∨
+      (∃ s ∈ e.sources.getD [], ∃ a, findArr arrs s = some a ∧ err.1 = s ∧
+        ∀ x, x ∈ err.2 ↔ x ∈ (needs e).1.map strip ∧ x ∉ a.props)) ∧
+    -- and nothing that is missing is left out
+    (∀ x ∈ (needs e).2.map strip, x ∉ d.props → ∃ err ∈ errs, err.1 = e.dest ∧ x ∈ err.2) ∧
+    (∀ s ∈ e.sources.getD [], ∀ a, findArr arrs s = some a →
+      ∀ x ∈ (needs e).1.map strip, x ∉ a.props → ∃ err ∈ errs, err.1 = s ∧ x ∈ err.2) := by
+  unfold checkEquationWith at h
+  cases hd : findArr arrs e.dest with
+  | none => rw [hd] at h; cases h
+  | some d =>
+    have hdn := (findArr_name hd).1
+    rw [hd] at h
+    simp only at h
+    cases hs : e.sources with
+    | none =>
+      rw [hs] at h
+      simp only at h
+      cases hc : checkArray d ((needs e).2.map strip) with
+      | none => rw [hc] at h; cases h
+      | some err =>
+        rw [hc] at h
+        simp only [Verdict.missing.injEq] at h
+        obtain ⟨hn, herrs⟩ := h
+        obtain ⟨c1, c2, _⟩ := checkArray_some hc
+        subst herrs
+        refine ⟨hn.symm, by simp, d, rfl, by simp, ?_, ?_, by simp⟩
+        · intro err' he'
+          simp only [List.mem_singleton] at he'
+          subst he'
+          left
+          exact ⟨by rw [c1, hdn], c2⟩
+        · intro x hx hxd
+          exact ⟨err, by simp, by rw [c1, hdn], (c2 x).mpr ⟨hx, hxd⟩⟩
+    | some srcs =>
+      rw [hs] at h
+      simp only at h
+      cases hf : srcs.find? (fun s => (findArr arrs s).isNone) with
+      | some s => rw [hf] at h; cases h
+      | none =>
+        rw [hf] at h
+        simp only at h
+        have hall : ∀ s ∈ srcs, ∃ a, findArr arrs s = some a := by
+          intro s hsm
+          have hnone := List.find?_eq_none.mp hf s hsm
+          cases ha : findArr arrs s with
+          | none => rw [ha] at hnone; simp at hnone
+          | some a => exact ⟨a, rfl⟩
+        split at h
+        · cases h
+        · rename_i hne
+          simp only [Verdict.missing.injEq] at h
+          obtain ⟨hn, herrs⟩ := h
+          subst herrs
+          refine ⟨hn.symm, ?_, d, rfl, ?_, ?_, ?_, ?_⟩
+          · intro h0; exact hne (by simp [h0])
+          · simpa using hall
+          · intro err he
+            rcases List.mem_append.mp he with he | he
+            · left
+              have hc : checkArray d ((needs e).2.map strip) = some err := by
+                cases hcc : checkArray d ((needs e).2.map strip) with
+                | none => rw [hcc] at he; simp at he
+                | some x => rw [hcc] at he; simp at he; rw [he]
+              obtain ⟨c1, c2, _⟩ := checkArray_some hc
+              exact ⟨by rw [c1, hdn], c2⟩
+            · right
+              obtain ⟨s, hsm, hcs⟩ := List.mem_filterMap.mp he
+              obtain ⟨a, ha⟩ := hall s hsm
+              simp only [checkSrc, ha] at hcs
+              obtain ⟨c1, c2, _⟩ := checkArray_some hcs
+              exact ⟨s, by simpa using hsm, a, ha, by rw [c1, (findArr_name ha).1], c2⟩
+          · intro x hx hxd
+            cases hcc : checkArray d ((needs e).2.map strip) with
+            | none => exact absurd (checkArray_none hcc x hx) hxd
+            | some err =>
+              obtain ⟨c1, c2, _⟩ := checkArray_some hcc
+              exact ⟨err, List.mem_append.mpr (Or.inl (by simp)), by rw [c1, hdn],
+                (c2 x).mpr ⟨hx, hxd⟩⟩
+          · intro s hsm a ha x hx hxa
+            simp only [Option.getD_some] at hsm
+            cases hcc : checkArray a ((needs e).1.map strip) with
+            | none => exact absurd (checkArray_none hcc x hx) hxa
+            | some err =>
+              obtain ⟨c1, c2, _⟩ := checkArray_some hcc
+              refine ⟨err, List.mem_append.mpr (Or.inr ?_), by rw [c1, (findArr_name ha).1],
+                (c2 x).mpr ⟨hx, hxa⟩⟩
+              exact List.mem_filterMap.mpr ⟨s, hsm, by simp only [checkSrc, ha]; exact hcc⟩
 
 end PysphVerif.Needs
